@@ -322,6 +322,20 @@ func verifC05_Enforce() {
 			verifAssert(vSame(got, want), "allowed-client-routed-as-without-filters")
 			verifCover("allowed")
 		}
+		// the path-level filters of OTHER entries do not apply to the request: allowed by the
+		// server filter, by every rule filter and by the filter of the entry it is routed to
+		if want.code == 0 {
+			own := allow(spec.IPFilter) && allow(want.entry.IPFilter)
+			for _, r := range spec.Rules {
+				own = own && allow(r.IPFilter)
+			}
+			if own {
+				verifAssert(vSame(got, want), "filters-of-other-entries-do-not-apply")
+				if !all {
+					verifCover("denied-only-by-another-entrys-filter")
+				}
+			}
+		}
 	}
 	if vCacheHits > 0 {
 		verifCover("cache-hit")
